@@ -349,6 +349,27 @@ def case(args):
         tag = "ends-%s%d_%d_%d" % ("p" if strand == "+" else "m", tails, ds, de)
         extra = ["--model_construction_strategy", "all"]
         models = True
+    elif kind == "mmtie":
+        # multi-mapped reads in an unannotated region: the primary alignment at locus A, an identical secondary one at locus B on the
+        # same chromosome (param: which of the two lies at the lower coordinates); neither is assigned to a gene
+        from vlib import worlds as W
+        w = W.base_world(1, 9000)
+        w["genes"].append({"id": "G1", "chr": "chr1", "strand": "+", "transcripts": [{"id": "T", "exons": [[7001, 7300], [7601, 7900]]}]})
+        syn.plant_for_transcripts(w)
+        la = [[501, 700], [1001, 1200], [1501, 1800]]
+        lb = [[b[0] + 3000, b[1] + 3000] for b in la]
+        W.add_sites_for_blocks(w, "chr1", la, "+")
+        W.add_sites_for_blocks(w, "chr1", lb, "+")
+        W.dedup_sites(w)
+        prim, sec = (la, lb) if param == 0 else (lb, la)
+        for i in range(4):
+            w["reads"].append({"name": "mt%d" % i, "chr": "chr1", "blocks": [list(b) for b in prim], "reverse": False, "clip_right": "A" * 30})
+            w["reads"].append({"name": "mt%d" % i, "chr": "chr1", "blocks": [list(b) for b in sec], "reverse": False, "clip_right": "A" * 30,
+                               "secondary": True})
+        w["reads"].append({"name": "edge", "chr": "chr1", "blocks": [[1, 300]], "reverse": False})
+        tag = "mmtie-%d" % param
+        extra = ["--model_construction_strategy", "all"]
+        models = True
     elif kind == "knownends":
         # three annotated isoforms with one intron chain whose starts ascend (1001, 1031, 1061) and whose ends are a permutation of
         # (3000, 3200, 3450); six polyA reads of a novel isoform (middle exon skipped) end 3 bases behind one of the annotated ends:
@@ -473,6 +494,9 @@ def run(ctx):
                 for de in offs:
                     if (ds, de) != (0, 0):
                         jobs.append(("ends", (strand, tails, ds, de), "reflect", ctx.scratch))
+    for which in (0, 1):
+        for tr in ("reflect", 257):
+            jobs.append(("mmtie", which, tr, ctx.scratch))
     for strand in "+-":
         for perm in itertools.permutations(range(3)):
             for which in ((0, 2) if quick else (0, 1, 2)):
